@@ -21,6 +21,7 @@
    The full statement is C02_derivatives_are_exact_full below (a Definition, not a theorem). *)
 From Coq Require Import List QArith Reals Lra Lia Arith Bool.
 From NV Require Import Scalar.Ops Model.Common Model.Basis Model.Knots Model.Eval Model.Degree Model.Derivs.
+From NV Require Import Proofs.DersEq210 Proofs.DersNdu Proofs.DersGeneral Proofs.DersGeneralAnalytic Proofs.DersGeneralOne Proofs.DersGeneralCurve.
 From NV Require Import Proofs.Boehm Proofs.DerivAnalytic Proofs.BasisOneR Proofs.DerivLink Proofs.DerivLinkCurve Proofs.EvalR.
 From NV Require Import Proofs.BasisR Proofs.DerivsR Proofs.DerivsRatSurf Proofs.DersRow0 Proofs.DerivsOrder0 Proofs.DersWindow Proofs.DersWindow56 Proofs.DerivsAgree Proofs.DerivsAgreeSurf Proofs.Boehm Proofs.Hodograph.
 From NV Require Import Run.DerivsH.
@@ -290,3 +291,94 @@ Theorem C02_curve_tangent_is_derivative_of_point_deg_le_5 : forall (U : list R) 
                    (nth d (nth 1 (Derivs.curve_derivs Rops dim p U P u order) nil) 0%R).
 Proof. exact curve_tangent_is_derivative_deg_le_5. Qed.
 Print Assumptions C02_curve_tangent_is_derivative_of_point_deg_le_5.
+
+(* ====================== GENERAL DEGREE (round 2, Proofs/DersGeneral*.v): the [B] degree <= 5 theorems above are now instances ====================== *)
+(* [G] all degrees: A2.3 = Eq. 2.9 on the half-open span *)
+Theorem C02_ders_is_eq29 : forall (U : list R) (span p : nat),
+  sortedR U -> (p <= span)%nat -> (span + p < length U)%nat -> (span + 1 < length U)%nat ->
+  forall (u : R) (order k r : nat), (knR U span <= u < knR U (span + 1))%R ->
+  (order <= p)%nat -> (k <= order)%nat -> (r <= p)%nat ->
+  nth r (nth k (basis_function_ders Rops p U span u order) []) 0%R = DerivAnalytic.dN (Ufun U) k p (span - p + r) u.
+Proof. exact ders_general. Qed.
+Print Assumptions C02_ders_is_eq29.
+
+(* [G] all degrees, every real u (span fixed): A2.3 = derivatives of the polynomial piece of the span *)
+Theorem C02_ders_is_piece_derivative : forall (U : list R) (span p : nat),
+  sortedR U -> (p <= span)%nat -> (span + p < length U)%nat -> (span + 1 < length U)%nat ->
+  forall (u : R) (order k r : nat), (order <= p)%nat -> (k <= order)%nat -> (r <= p)%nat ->
+  nth r (nth k (basis_function_ders Rops p U span u order) []) 0%R = dNk (Ufun U) span k p (span - p + r) u.
+Proof. exact ders_general_pieces. Qed.
+Print Assumptions C02_ders_is_piece_derivative.
+
+(* [G] replaces C02_ders_is_the_true_derivative_deg_le_5 *)
+Theorem C02_ders_is_the_true_derivative : forall (U : list R) (span p order : nat),
+  sortedR U -> (p <= span)%nat -> (span + p < length U)%nat -> (span + 1 < length U)%nat -> (order <= p)%nat ->
+  forall k r : nat, (k <= order)%nat -> (r <= p)%nat ->
+  kth_deriv_on (knR U span) (knR U (span + 1)) k (fun x => N (Ufun U) p (span - p + r) x)
+               (fun x => nth r (nth k (basis_function_ders Rops p U span x order) nil) 0%R).
+Proof. exact ders_is_true_derivative_general. Qed.
+Print Assumptions C02_ders_is_the_true_derivative.
+
+(* [G] every real u: row k+1 is the (two-sided) derivative of row k, the span being fixed *)
+Theorem C02_ders_consecutive_rows : forall (U : list R) (span p order : nat),
+  sortedR U -> (p <= span)%nat -> (span + p < length U)%nat -> (span + 1 < length U)%nat -> (order <= p)%nat ->
+  forall (k r : nat) (u : R), (S k <= order)%nat -> (r <= p)%nat ->
+  derivable_pt_lim (fun x => nth r (nth k (basis_function_ders Rops p U span x order) nil) 0%R) u
+                   (nth r (nth (S k) (basis_function_ders Rops p U span u order) nil) 0%R).
+Proof. exact ders_consecutive_rows_general. Qed.
+Print Assumptions C02_ders_consecutive_rows.
+
+(* [G] replaces C02_ders_right_derivative_at_knot_deg_le_5 (the hypothesis U_span < U_span+1 is not needed) *)
+Theorem C02_ders_right_derivative_at_knot : forall (U : list R) (span p order : nat),
+  sortedR U -> (p <= span)%nat -> (span + p < length U)%nat -> (span + 1 < length U)%nat -> (order <= p)%nat ->
+  forall k r : nat, (S k <= order)%nat -> (r <= p)%nat ->
+  right_derivable_pt_lim (fun x => nth r (nth k (basis_function_ders Rops p U span x order) nil) 0%R)
+    (knR U span) (nth r (nth (S k) (basis_function_ders Rops p U span (knR U span) order) nil) 0%R).
+Proof. exact ders_right_derivative_at_knot_general. Qed.
+Print Assumptions C02_ders_right_derivative_at_knot.
+
+(* [G] A2.3 = A2.5 ("all shipped derivative algorithms agree") *)
+Theorem C02_ders_agrees_with_ders_one : forall (U : list R) (span p : nat) (u : R) (order k r : nat),
+  sortedR U -> (p <= span)%nat -> (span + p + 1 < length U)%nat ->
+  (knR U span <= u < knR U (span + 1))%R -> (order <= p)%nat -> (k <= order)%nat -> (r <= p)%nat ->
+  nth r (nth k (basis_function_ders Rops p U span u order) []) 0%R
+  = nth k (basis_function_ders_one Rops p U (span - p + r) u order) 0%R.
+Proof. exact ders_agrees_with_ders_one. Qed.
+Print Assumptions C02_ders_agrees_with_ders_one.
+
+(* [G] curves, all degrees: replace the _deg_le_5 curve theorems *)
+Theorem C02_curve_derivs_are_the_true_derivatives : forall (U : list R) (P : list (list R)) (p dim : nat),
+  sortedR U -> wf_net P dim -> (p < length P)%nat -> length U = (length P + p + 1)%nat ->
+  forall s : nat, (p <= s < length P)%nat -> forall order k d : nat, (k <= order)%nat -> (d < dim)%nat ->
+  kth_deriv_on (knR U s) (knR U (s + 1)) k (fun x => curve_def U p P d x)
+               (fun x => nth d (nth k (Derivs.curve_derivs Rops dim p U P x order) nil) 0%R).
+Proof. exact curve_derivs_is_true_derivative_general. Qed.
+Print Assumptions C02_curve_derivs_are_the_true_derivatives.
+
+Theorem C02_curve_derivs_right_derivative : forall (U : list R) (P : list (list R)) (p dim : nat),
+  sortedR U -> wf_net P dim -> (p < length P)%nat -> length U = (length P + p + 1)%nat ->
+  forall s : nat, (p <= s < length P)%nat -> forall (order k d : nat) (u : R), (S k <= order)%nat -> (d < dim)%nat ->
+  (knR U s <= u < knR U (s + 1))%R ->
+  right_derivable_pt_lim (fun x => nth d (nth k (Derivs.curve_derivs Rops dim p U P x order) nil) 0%R) u
+                         (nth d (nth (S k) (Derivs.curve_derivs Rops dim p U P u order) nil) 0%R).
+Proof. exact curve_derivs_right_derivative_general. Qed.
+Print Assumptions C02_curve_derivs_right_derivative.
+
+Theorem C02_curve_tangent_is_derivative_of_point : forall (U : list R) (P : list (list R)) (p dim : nat),
+  sortedR U -> wf_net P dim -> (p < length P)%nat -> length U = (length P + p + 1)%nat ->
+  forall s : nat, (p <= s < length P)%nat -> forall (order d : nat) (u : R), (1 <= order)%nat -> (d < dim)%nat ->
+  (knR U s < u < knR U (s + 1))%R ->
+  derivable_pt_lim (fun x => nth d (Eval.curve_point Rops dim p U P x) 0%R) u
+                   (nth d (nth 1 (Derivs.curve_derivs Rops dim p U P u order) nil) 0%R).
+Proof. exact curve_tangent_is_derivative_general. Qed.
+Print Assumptions C02_curve_tangent_is_derivative_of_point.
+
+(* [G] the closed right end of the domain (u = U_n, evaluated with the last span): left derivatives *)
+Theorem C02_curve_derivs_left_derivative_at_domain_end : forall (U : list R) (P : list (list R)) (p dim : nat),
+  sortedR U -> wf_net P dim -> (p < length P)%nat -> length U = (length P + p + 1)%nat ->
+  forall order k d : nat, (S k <= order)%nat -> (d < dim)%nat -> (knR U (length P - 1) < knR U (length P))%R ->
+  left_derivable_pt_lim (fun x => nth d (nth k (Derivs.curve_derivs Rops dim p U P x order) nil) 0%R) (knR U (length P))
+                        (nth d (nth (S k) (Derivs.curve_derivs Rops dim p U P (knR U (length P)) order) nil) 0%R).
+Proof. exact curve_derivs_left_derivative_at_end. Qed.
+Print Assumptions C02_curve_derivs_left_derivative_at_domain_end.
+
